@@ -311,8 +311,10 @@ def check_heights(chunk, viol, tags, which_list=WHICH):
             if not (np.isfinite(f) and f >= 0):
                 V(viol, 'C04', 'fluffiness not finite and non-negative', which=which, got=f, n=len(h))
             code = str(r['code'])
-            digits = code[-3:]
-            if not (len(code) == 6 and digits.isdigit()):
+            digits = code[3:]
+            if b < 0:
+                tags.add('negative_base')     # accepted with a warning; coded as a signed floor, e.g. -01
+            if not (len(code) == 6 and (digits.isdigit() or (b < 0 and digits[0] == '-' and digits[1:].isdigit()))):
                 V(viol, 'C04', 'code not <3 letters><3 digits>', which=which, code=code)
                 continue
             if int(digits) != floor_code(b):
